@@ -188,6 +188,8 @@ pub struct Spec {
     pub from: Option<&'static str>,
     /// always emit the monadic form (a pure kernel would change its TYPE when a `debug_assert!` is added to the source)
     pub force_monadic: bool,
+    /// builder-style methods that are not looked at: `x.m(args)` is `x` (the arguments are not translated)
+    pub chain_methods: Vec<&'static str>,
 }
 
 impl Spec {
@@ -270,7 +272,7 @@ fn base(module: &'static str, group: &'static str, file: &'static str, name: &'s
         recv_groups: vec![], id_methods: vec![], skip_as: vec![], rewrite: vec![], ctors: vec![], argsel: vec![],
         skip_loops: false, ret_wrap: None, note: "",
         type_params: vec![], recv_arg: vec![], break_value: false, loop_cond: false, effects_ret: false, with_locals: vec![],
-        ptr_checked: false, closure_params: vec![], after_loop: None, skip_lets: vec![], iter_fold: None, via: None, positions: vec![], attr_filter: None, inventory: None, inventory_derives: vec![], annot: None, from: None, force_monadic: false,
+        ptr_checked: false, closure_params: vec![], after_loop: None, skip_lets: vec![], iter_fold: None, via: None, positions: vec![], attr_filter: None, inventory: None, inventory_derives: vec![], annot: None, from: None, force_monadic: false, chain_methods: vec![],
     }
 }
 
@@ -566,6 +568,39 @@ pub fn table() -> Vec<Spec> {
             s.recv_arg = vec![f];
             s.argsel = vec![("store", vec![])];
             t.push(s);
+        }
+        // w1e: ONE iteration of the element loops of VolatileArrayRef::{copy_to, copy_from}: one volatile access at the element
+        // pointer, then the pointer advances by ONE element (`ptr` counts elements of Packed<T>)
+        let mut s = vk("va_copy_to_elem", "copy_to", Loc::Impl { ty: "VolatileArrayRef", tr: None, f: "copy_to" });
+        s.canon_params = vec!["buf"];
+        s.drop_params = vec!["buf"];
+        s.loop_idx = Some(0);
+        s.vars = vec![("v", Ty::Unit)];
+        s.state = vec![ex("#0", "ptr", Ty::Ptr)];
+        s.effects = vec!["read_volatile"];
+        s.step = Some(("N", "unit"));
+        t.push(s);
+        let mut s = vk("va_copy_from_elem", "copy_from", Loc::Impl { ty: "VolatileArrayRef", tr: None, f: "copy_from" });
+        s.canon_params = vec!["buf"];
+        s.drop_params = vec!["buf"];
+        s.loop_idx = Some(0);
+        s.vars = vec![("v", Ty::Unit)];
+        s.state = vec![ex("ptr", "ptr", Ty::Ptr)];
+        s.effects = vec!["write_volatile"];
+        s.argsel = vec![("write_volatile", vec![0])];
+        s.step = Some(("N", "unit"));
+        t.push(s);
+        // w1e: the pointer-guard getters only BUILD the guard (mapping handle, address, length): no mark_dirty, no other call
+        for (ty, tag, len_pat) in [("VolatileSlice", "vs", "self . len ()"), ("VolatileRef", "vr", "self . len ()")] {
+            for (f, ctor) in [("ptr_guard", "read"), ("ptr_guard_mut", "write")] {
+                let name: &'static str = Box::leak(format!("{}_{}", tag, f).into_boxed_str());
+                let mut s = vk(name, f, Loc::Impl { ty, tr: None, f });
+                s.extra = vec![mm("self . mmap", "mmap"), ex("self . addr", "addr", Ty::Ptr), ex("self . addr as * mut u8", "addr", Ty::Ptr), ex(len_pat, "len", Ty::Int(64))];
+                s.effects = vec!["mark_dirty"];
+                s.effects_ret = true;
+                s.ctors = vec![(ctor, vec![0, 1, 2])];
+                t.push(s);
+            }
         }
         // {VolatileSlice, VolatileArrayRef}::copy_to_volatile_slice: count = min(own byte length, slice.size), one copy, mark (0, count)
         for (name, ty) in [("vs_copy_to_volatile_slice", "VolatileSlice"), ("va_copy_to_volatile_slice", "VolatileArrayRef")] {
@@ -1299,6 +1334,21 @@ pub fn table() -> Vec<Spec> {
         s.argsel = vec![("mmap", vec![1, 2, 3])];
         t.push(s);
     }
+    {
+        // w1e: every bitmap-creating constructor of MmapRegion hands the builder B::with_len(<mapping size>)
+        for f in ["new", "from_file", "build", "build_raw"] {
+            let name: &'static str = Box::leak(format!("region_{}_bitmap", f).into_boxed_str());
+            let mut s = base("MmapUnix", name, "src/mmap/unix.rs", name, f, Loc::Impl { ty: "MmapRegion", tr: None, f }); // (a group of its own: `MmapRegionBuilder::new` must not resolve to the kernel of `MmapRegion::new`)
+            s.type_params = vec!["BM"];
+            s.canon_params = match f { "new" => vec!["size"], "from_file" => vec!["file_offset", "size"], "build" => vec!["file_offset", "size", "prot", "flags"], _ => vec!["addr", "size", "prot", "flags"] };
+            s.drop_params = vec!["file_offset", "addr", "prot", "flags"];
+            s.fns = vec![ofn("with_len", "with_len", "N -> BM", Ty::Abs("BM"))];
+            s.ctors = vec![("new_with_bitmap", vec![0, 1])];
+            s.chain_methods = vec!["with_mmap_prot", "with_mmap_flags", "with_file_offset", "with_raw_mmap_pointer", "build"];
+            s.skip = vec!["if let Some (v) = file_offset { builder = builder . with_file_offset (v) ; }"];
+            t.push(s);
+        }
+    }
     // ------------------------------------------------------------------ src/mmap/xen.rs
     let xfile = "src/mmap/xen.rs";
     for f in ["is_unix", "is_foreign", "is_grant", "mmap_in_advance", "is_valid"] {
@@ -1389,8 +1439,35 @@ pub fn table() -> Vec<Spec> {
         s.type_params = vec!["FO"];
         s.from = Some("Ok (MmapRegion");
         s.extra = vec![ext("range . hugetlbfs", "huge", "option bool", opt(Ty::Bool)), ex("range . size", "size", Ty::Int(64)), ext("range . file_offset", "fo", "FO", Ty::Abs("FO"))];
-        s.fields = vec!["hugetlbfs", "size", "file_offset"];
-        s.annot = Some("rres (FO * option bool * N)");
+        s.fields = vec!["hugetlbfs", "size", "file_offset", "bitmap"];
+        s.type_params = vec!["FO", "BM"];
+        s.fns = vec![ofn("with_len", "with_len", "N -> BM", Ty::Abs("BM"))];
+        s.annot = Some("rres (BM * FO * option bool * N)");
+        t.push(s);
+    }
+    {
+        // w1e: MmapXenForeign::mmap_ioctl: base = guest_base / page_size, frame i = base + i (ONE iteration of the loop), and the
+        // num / domid fields of the PrivCmdMmapBatchV2 request
+        let fl = |name: &'static str| base("Xen", "Xen", xfile, name, "mmap_ioctl", Loc::Impl { ty: "MmapXenForeign", tr: None, f: "mmap_ioctl" });
+        let mut s = fl("foreign_base");
+        s.extra = vec![ex("page_size ()", "page_size", Ty::Int(64)), ex("self . guest_base . 0", "guest_base", Ty::Int(64))];
+        s.locals = Some(vec!["base"]);
+        s.positions = vec![("let#0", "base")];
+        t.push(s);
+        let mut s = fl("foreign_frame_body");
+        s.loop_idx = Some(0);
+        s.vars = vec![("i", Ty::Int(64))];
+        s.extra = vec![ex("base", "base", Ty::Int(64))];
+        s.positions = vec![("let#0", "base")];
+        s.effects = vec!["push"];
+        s.step = Some(("unit", "unit"));
+        t.push(s);
+        let mut s = fl("foreign_batch_fields");
+        s.from = Some("PrivCmdMmapBatchV2");
+        s.locals = Some(vec!["map"]);
+        s.positions = vec![("let#3", "map")];
+        s.extra = vec![ex("self . domid", "domid", Ty::Int(64))];
+        s.fields = vec!["num", "domid"];
         t.push(s);
     }
     // ------------------------------------------------------------------ src/endian.rs
